@@ -221,11 +221,9 @@ class Parser(with_metaclass(_ParserMeta, Node)):
         self._debug = d
         return self
 
-    _ABSENT = object()
-
     @staticmethod
     def _accumulate(first, rest):
-        results = [] if first is Parser._ABSENT else [first]
+        results = [first]
         if rest:
             results.extend(rest)
         return results
@@ -235,7 +233,8 @@ class Parser(with_metaclass(_ParserMeta, Node)):
         Return a parser that matches zero or more instances of the current
         parser separated by instances of the parser sep.
         """
-        return Lift(self._accumulate) * Opt(self, Parser._ABSENT) * Many(sep >> self)
+        some = Lift(self._accumulate) * self * Many(sep >> self)
+        return Opt(some).map(lambda results: [] if results is None else results)
 
     def until(self, pred):
         """
